@@ -16,6 +16,7 @@ package main
 import (
 	"bytes"
 	"fmt"
+	"os"
 	"reflect"
 	"strings"
 
@@ -216,43 +217,92 @@ func firstDiff(a, b []byte) int {
 	return len(a)
 }
 
+// decidingLabel: only values whose independence a property clause (or the Go type) states can decide a verdict
+// (audit 2, finding 1): caller-supplied inputs and arguments ("never modifies a caller-supplied buffer"), the option
+// slice passed to Create, the accumulator's Bytes()/Packets() ("an independent copy"), packets returned by
+// Create / FromBytes (a Packet is a value).  Everything else that is kept - Data(), UPID(), MID(), Descriptors(),
+// Pids(), ElementaryStreams(), descriptor bodies, closed / Open() lists, function-style views, filter outputs - may
+// legitimately share storage with the object and change when the object is modified (the library promises nothing
+// there, cf. notes/aliasing.md A2); those are observed only: a change is written to stderr, never into the reply.
+func decidingLabel(label string) bool {
+	for _, p := range []string{"input of", "argument of", "option slice", "Bytes() of step", "Packets() of step",
+		"acc.Bytes()", "acc.Packets()", "packet returned by", "second packet from FromBytes"} {
+		if strings.HasPrefix(label, p) {
+			return true
+		}
+	}
+	return false
+}
+
 // unstable re-compares everything kept since the op started; "" when nothing moved.
 func unstable() string {
 	if firstNote != "" {
 		return firstNote
 	}
+	d := unstableAll()
+	if d == "" {
+		return ""
+	}
+	return d
+}
+
+func unstableAll() string {
+	observed := ""
+	report := func(label, msg string) string {
+		if decidingLabel(label) {
+			return msg
+		}
+		if observed == "" {
+			observed = msg
+			fmt.Fprintln(os.Stderr, "observed (not a verdict): "+msg)
+		}
+		return ""
+	}
 	for _, k := range keptB {
 		if !bytes.Equal(k.live, k.snap) {
 			i := firstDiff(k.snap, k.live)
-			return fmt.Sprintf("%s changed after it was handed out: byte %d of %d was %02x, now %02x", k.label, i, len(k.snap), k.snap[i], k.live[i])
+			if r := report(k.label, fmt.Sprintf("%s changed after it was handed out: byte %d of %d was %02x, now %02x", k.label, i, len(k.snap), k.snap[i], k.live[i])); r != "" {
+				return r
+			}
 		}
 	}
 	for _, k := range keptI {
 		for i := range k.snap {
 			if k.live[i] != k.snap[i] {
-				return fmt.Sprintf("%s changed after it was handed out: element %d was %d, now %d", k.label, i, k.snap[i], k.live[i])
+				if r := report(k.label, fmt.Sprintf("%s changed after it was handed out: element %d was %d, now %d", k.label, i, k.snap[i], k.live[i])); r != "" {
+					return r
+				}
 			}
 		}
 	}
 	for _, k := range keptP {
 		if *k.live != k.snap {
 			i := firstDiff(k.snap[:], k.live[:])
-			return fmt.Sprintf("packet %s changed after it was handed out: byte %d was %02x, now %02x", k.label, i, k.snap[i], k.live[i])
+			if r := report(k.label, fmt.Sprintf("packet %s changed after it was handed out: byte %d was %02x, now %02x", k.label, i, k.snap[i], k.live[i])); r != "" {
+				return r
+			}
 		}
 	}
 	for _, k := range keptL {
 		if k.live.Len() != len(k.snap) {
-			return fmt.Sprintf("list %s changed length", k.label)
+			if r := report(k.label, fmt.Sprintf("list %s changed length", k.label)); r != "" {
+				return r
+			}
+			continue
 		}
 		for i, id := range k.snap {
 			if identOf(k.live.Index(i)) != id {
-				return fmt.Sprintf("list %s: element %d was replaced after the list was handed out", k.label, i)
+				if r := report(k.label, fmt.Sprintf("list %s: element %d was replaced after the list was handed out", k.label, i)); r != "" {
+					return r
+				}
 			}
 		}
 	}
 	for _, k := range keptV {
 		if now := safeView(k.f); now != k.snap {
-			return fmt.Sprintf("%s changed although it was not touched: was %.60s now %.60s", k.label, k.snap, now)
+			if r := report(k.label, fmt.Sprintf("%s changed although it was not touched: was %.60s now %.60s", k.label, k.snap, now)); r != "" {
+				return r
+			}
 		}
 	}
 	return ""
